@@ -237,6 +237,13 @@ def register(chk):
                         chk.add("neg-incompatible:%s:slot%d" % (",".join(pattern), i), ob_incompatible, l, pattern, i, st)
 
 
+def include_in(chk):
+    """this check's obligations registered inside another check (framework.Check.include): every call runs on objects of exactly the documented size,
+    so they are memory-safety obligations for valid calls as well"""
+    wkd.prog()
+    register(chk)
+
+
 def main(argv=None):
     chk = Check("C13", "proof", argv)
     wkd.prog()
